@@ -36,11 +36,10 @@ Theorem C14_destroyed_is_recorded_and_final :
     (forall f', run_cmd s' (OUp id f') = (s', RDestroyed)).
 Proof. exact remove_destroyed_pf. Qed.
 
-(* a store becomes tombstone only while no region has a peer on it; the excluded command is the
-   direct call of the verification hook (buryStore has exactly one production caller, checkStores:
-   proof/C14_Skel.v bury_callers_ok) *)
+(* a store becomes tombstone only while no region has a peer on it, whichever command does it: since fix b5aa87e buryStore
+   itself looks at the region tree under the cluster lock, so the former exemption of a direct buryStore call is gone *)
 Theorem C14_bury_only_empty :
-  forall s o s' r id x y, run_cmd s o = (s', r) -> is_bury_hook o = false ->
+  forall s o s' r id x y, run_cmd s o = (s', r) ->
     sv s id = Some x -> sv s' id = Some y -> s_state x <> Tombstone -> s_state y = Tombstone ->
     tree_count s id = 0.
 Proof. exact bury_only_empty_pf. Qed.
